@@ -245,10 +245,11 @@ func syncedKVMap.iterate
   callback consume(k, v) (cont)
     opt nolocks
     opt nolocks
+    requires fresh(v)          -- the consumer gets a private copy of the value: writing into them cannot reach the store
   modifies monitor(s)
-  loop 1 invariant rheld(s.RWMutex) && copiedElements != nil && fresh(copiedElements) && (forall k Str :: has(copiedElements, k) ==> hasprefix(k, prefix))
-  loop 2 invariant unlocked(s.RWMutex) && fresh(keysSlice) && (forall i Int :: 0 <= i && i < len(keysSlice) ==> hasprefix(keysSlice[i], prefix))
-  loop 3 invariant unlocked(s.RWMutex)
+  loop 1 invariant rheld(s.RWMutex) && copiedElements != nil && fresh(copiedElements) && (forall k Str :: has(copiedElements, k) ==> hasprefix(k, prefix) && fresh(copiedElements[k]))
+  loop 2 invariant unlocked(s.RWMutex) && fresh(keysSlice) && (forall i Int :: 0 <= i && i < len(keysSlice) ==> hasprefix(keysSlice[i], prefix)) && (forall k Str :: has(copiedElements, k) ==> fresh(copiedElements[k]))
+  loop 3 invariant unlocked(s.RWMutex) && (forall k Str :: has(copiedElements, k) ==> fresh(copiedElements[k]))
   ensures unlocked(s.RWMutex)
 
 func mapDB.Iterate
